@@ -13,6 +13,7 @@ atomic steps.  `s.watch` is the advertised value, `s.chosen` the relay most rece
 (`lastChoice` of the log of writes), `s.history` the chronological list of writes.
 -/
 import IrohModel.C26.Lemmas
+import IrohModel.C26.CallerLemmas
 
 namespace IrohModel.C26
 
@@ -141,5 +142,89 @@ example : ∃ s, Reachable codeLk s ∧ s.watch = some (1, 1) ∧ s.chosen = som
 thread 1 holds the lock between its read and its write. -/
 example : ((runLabels codeLk init (demoLabels.take 6)).map fun s => (s.lock, s.pcs 1)) =
     some (some 1, .matched 0 1) := by decide
+
+/-! ## The caller: `RelayActor`'s home-relay change handling (`Caller.lean`)
+
+Every state reachable in the composed system — the `RelayActor` task handling any sequence of
+`NetworkChange` messages (any preferred relays), datagrams that start connections to any relays,
+actors ending, and every `ActiveRelayActor` writing any status at any time, in any interleaving —
+with the code's current handler (`codeSa`: `set` for every new home, re-read from the source). -/
+
+theorem codeSa_eq : codeSa = true := rfl
+
+/-- After every home-relay change the watch shows the newly chosen relay at once, whatever
+`ActiveRelayActor`s already exist: from the moment `set_home_relay` starts telling the actors
+(`notifying`) the advertised url is the new home, and whenever the `RelayActor` is between two
+messages the advertised url is the preferred relay of the last `NetworkChange` it handled. -/
+theorem published_follows_choice {s : CState} (h : CReachable codeSa codeLk s) :
+    (s.ra = .idle → s.base.watch.map Prod.fst = s.handled) ∧
+    (∀ u todo, s.ra = .notifying u todo → s.base.watch.map Prod.fst = some u) := by
+  have hi := cinv_of_reachable (codeSa_eq ▸ codeLk_eq ▸ h)
+  have hc := hi.choice
+  constructor
+  · intro hra
+    rw [hra] at hc
+    rw [hi.base_inv.url_latest]; exact hc
+  · intro u todo hra
+    rw [hra] at hc
+    rw [hi.base_inv.url_latest]; exact hc
+
+/-- … and the new home's status updates are accepted afterwards: a `set_status(&v, st)` of the actor
+of the relay `v` that was handled last as home, having taken the lock, passes the url guard and
+publishes `(v, st)`; `v` stays the advertised relay. -/
+theorem home_status_accepted {s : CState} (h : CReachable codeSa codeLk s) (v : Url) (st : St)
+    (hra : s.ra = .idle) (hh : s.handled = some v)
+    (hpc : s.base.pcs (v + 1) = .holding (.status v st)) :
+    ∃ s1 s2, cstep codeSa codeLk s (.actorStep v .read) = some s1 ∧
+      cstep codeSa codeLk s1 (.actorStep v .finish) = some s2 ∧
+      s2.base.watch = some (v, st) ∧ s2.ra = .idle ∧ s2.handled = some v := by
+  have hurl : s.base.watch.map Prod.fst = some v := by
+    rw [(published_follows_choice h).1 hra, hh]
+  rw [codeSa_eq, codeLk_eq]
+  refine ⟨{ s with base := { s.base with pcs := setPc s.base.pcs (v + 1) (.matched v st) } },
+    { s with base := ⟨some (v, st), none, setPc (setPc s.base.pcs (v + 1) (.matched v st)) (v + 1) .idle,
+        .wrote (v + 1) v st :: s.base.log⟩ }, ?_, ?_, rfl, hra, hh⟩
+  · simp [cstep, Sub.label, step, hpc, hurl]
+  · simp [cstep, Sub.label, step]
+
+/-- The variant that skips `set` for a relay which already has an actor (`sa = false`) violates
+the property: home 0; traffic opens a connection to relay 1; relay 1 is chosen as home — the watch
+keeps advertising relay 0 after the change has been handled, and relay 1's status is rejected. -/
+def glueSchedule : List CLabel :=
+  [.handle (some 0), .raAcquire, .raFinish, .ensure,
+   .traffic 1,
+   .handle (some 1), .notify, .notify, .ensure,
+   .actorCall 1 1, .actorStep 1 .acquire, .actorStep 1 .read]
+
+theorem glue_counterexample_skip_set :
+    ∃ s, CReachable false codeLk s ∧ s.ra = .idle ∧ s.handled = some 1 ∧
+      s.base.watch.map Prod.fst = some 0 ∧ s.base.pcs 2 = .idle := by
+  cases hs : runLabelsC false codeLk cinit glueSchedule with
+  | none => exact absurd hs (by decide)
+  | some s =>
+    have hw : (runLabelsC false codeLk cinit glueSchedule).map
+        (fun s => (s.ra, s.handled, s.base.watch.map Prod.fst, s.base.pcs 2)) =
+        some (.idle, some 1, some 0, .idle) := by decide
+    rw [hs] at hw
+    simp only [Option.map_some, Option.some.injEq, Prod.mk.injEq] at hw
+    exact ⟨s, creachable_of_runLabelsC .init _ hs, hw.1, hw.2.1, hw.2.2.1, hw.2.2.2⟩
+
+/-- Non-vacuity: the same messages on the code as it is (an actor for relay 1 exists when it
+becomes home): relay 1 is advertised and its actor's `Connected` is accepted. -/
+def glueScheduleOk : List CLabel :=
+  [.handle (some 0), .raAcquire, .raFinish, .ensure,
+   .traffic 1,
+   .handle (some 1), .raAcquire, .raFinish, .notify, .notify, .ensure,
+   .actorCall 1 1, .actorStep 1 .acquire]
+
+example : (runLabelsC codeSa codeLk cinit glueScheduleOk).map
+    (fun s => (s.ra, s.handled, s.actors)) = some (.idle, some 1, [1, 0]) := by decide
+
+example : (runLabelsC codeSa codeLk cinit glueScheduleOk).map
+    (fun s => (s.base.watch, s.base.pcs 2)) =
+    some (some (1, 0), .holding (.status 1 1)) := by decide
+
+example : ((runLabelsC codeSa codeLk cinit (glueScheduleOk ++ [.actorStep 1 .read, .actorStep 1 .finish])).map
+    fun s => s.base.watch) = some (some (1, 1)) := by decide
 
 end IrohModel.C26
